@@ -548,11 +548,25 @@ impl ASN1Type {
                     let arg = args.get(index).ok_or_else(|| grammar_error!(LinkerError, "Did not find an argument for parameter {dummy_reference} of {identifier}"))?;
                     match (arg, param_governor) {
                         (Parameter::ValueParameter(v), ParameterGovernor::TypeOrClass(gov)) => {
+                            // The actual parameter may be a reference to a value assignment of the instantiating scope:
+                            // pass the referenced value on, so that the dummy reference
+                            // resolves to a literal wherever the template uses it
+                            let actual = match v {
+                                ASN1Value::ElsewhereDeclaredValue {
+                                    parent: None,
+                                    identifier: referenced,
+                                    ..
+                                } => match tlds.get(referenced) {
+                                    Some(ToplevelDefinition::Value(value)) => value.value.clone(),
+                                    _ => v.clone(),
+                                },
+                                _ => v.clone(),
+                            };
                             impl_tlds.insert(
                                 dummy_reference.clone(),
                                 ToplevelDefinition::Value(ToplevelValueDefinition::from((
                                     dummy_reference.as_str(),
-                                    v.clone(),
+                                    actual,
                                     gov.clone(),
                                 ))),
                             );
